@@ -27,6 +27,35 @@ class NoAtexit:
         pass
 
 
+class UnflushedFile:
+    """File proxy that models the write buffer of a process that may be KILLED: nothing reaches the disk before close();
+    once `dead` is set (the process is gone) the buffered data is lost."""
+    def __init__(self, real):
+        self.real, self.buf, self.dead = real, [], False
+
+    def write(self, s):
+        self.buf.append(s)
+        return len(s)
+
+    def flush(self):
+        pass
+
+    def close(self):
+        if not self.dead and not self.real.closed:
+            self.real.write("".join(self.buf))
+        self.real.close()
+
+    def __enter__(self):
+        return self
+
+    def __exit__(self, *a):
+        self.close()
+        return False
+
+    def __getattr__(self, name):
+        return getattr(self.real, name)
+
+
 class CrashingFile:
     """File proxy: after `limit` write calls the process 'dies'; what reached the disk is a strict prefix."""
     def __init__(self, real, limit):
@@ -101,6 +130,11 @@ def corrupt(path, variant, rng_n):
             new = json.dumps(doc).encode()
         else:
             new = raw[:len(raw) // 2]
+    elif variant == 7:
+        doc = json.loads(raw)
+        for d in doc:
+            d.pop("attr", None)                           # another missing key: the attributes
+        new = json.dumps(doc).encode() if doc else b"[{}]"
     else:
         new = b""                                         # empty file
     with open(path, "wb") as f:
@@ -139,7 +173,45 @@ def replay(col, item):
                     j += 1
                 last = steps[-1]
                 fingerprint_extra = last
-                if last == "save_rename":
+                if last == "save_rename" and j < len(hist) and hist[j][0] == "crash":
+                    # the process is killed right AFTER the rename: whatever was still in a write buffer at that moment is
+                    # lost (the backup must have been closed before it was renamed)
+                    opened = []
+                    def buffering_open(path, mode="r", *aa, **kk):
+                        real = open(path, mode, *aa, **kk)
+                        if str(path).endswith(".backup") and "w" in mode:
+                            opened.append(UnflushedFile(real))
+                            return opened[-1]
+                        return real
+                    def killed(fn):
+                        def wrapper(*aa, **kk):
+                            r = fn(*aa, **kk)
+                            for f in opened:
+                                f.dead = True
+                            raise Crash("right after the rename")
+                        return wrapper
+                    class S2:
+                        def __getattr__(self, n):
+                            return getattr(shutil, n)
+                        move = staticmethod(killed(shutil.move))
+                    class O2:
+                        def __getattr__(self, n):
+                            return getattr(os, n)
+                        rename = staticmethod(killed(os.rename))
+                        replace = staticmethod(killed(os.replace))
+                    FM.open, FM.shutil, FM.os = buffering_open, S2(), O2()
+                    try:
+                        fs.save_cache(cache)
+                        col.bump("crash_point_not_reached")
+                    except Crash:
+                        pass
+                    except Exception as ex:
+                        col.violation("save-raises-" + type(ex).__name__, dict(rep, observed=repr(ex)[:300], at_step=i))
+                        return
+                    finally:
+                        FM.shutil, FM.os = saved["shutil"], saved["os"]
+                        FM.__dict__.pop("open", None)
+                elif last == "save_rename":
                     try:
                         fs.save_cache(cache)
                     except Exception as ex:
@@ -364,7 +436,7 @@ def run(ctx):
     for n, c in enumerate(cases):
         has_corrupt = any(h[0] == "corrupt" for h in c["hist"])
         for k in ((["temporal", "nontemporal"][n % 2],) if quick else ("temporal", "nontemporal")):
-            for v in (range(7) if has_corrupt else (0,)):
+            for v in (range(8) if has_corrupt else (0,)):
                 items.append((c, k, n, v))
     ctx.notes["histories_ending_in_a_restart"] = len(cases)
     CAP = 150000
